@@ -179,7 +179,13 @@ def r2(ck, F):
         # the parsed map is assigned to v.values before fields.record(&mut v) on the merge path
         assigns = [(i, j, s) for i, j, s in b.stmts() if s["k"] == "assign" and any(isinstance(x, dict) and x.get("n") == "values" for x in s["lhs"].get("p", []))]
         merge_recs = [r for r in recs if b.dominates(pbb, r[0])]
-        if not assigns or not merge_recs:
+        # ... or inserted entry by entry: `for (k, v) in parsed { visitor.values.insert(k, v) }` / `.extend(parsed)`
+        from rulekit.query import recv_fields
+        fills = [bb for bb, t in b.calls() if t["callee"].get("method") in ("insert", "extend", "append") and "values" in (recv_fields(b, t)[1] or [])]
+        if not assigns and fills and merge_recs:
+            if not all(b.dominates(pbb, f) and merge_recs[0][0] in b.reachable(f) for f in fills):
+                ok, why = False, "the visitor is not seeded with the previously recorded fields before the new ones are recorded"
+        elif not assigns or not merge_recs:
             ok, why = False, "the parsed object is not moved into the visitor's `values` map on the merge path"
         else:
             ai = assigns[0][0]
